@@ -8,7 +8,8 @@ patch="$(readlink -f "$1")"; mode="$2"; shift 2
 cd /repo || exit 2
 git diff --quiet || { echo "repo not clean"; exit 2; }
 git apply "$patch" || git apply --3way "$patch" || { echo "patch does not apply"; exit 2; }
-trap 'git -C /repo checkout -- . ; git -C /repo status --short | head -3' EXIT
+# undo the change and rebuild, so that binaries run directly afterwards are those of the unchanged tree
+trap 'git -C /repo checkout -- . ; git -C /repo status --short | head -3; /verif/check setup >/dev/null 2>&1' EXIT
 cd /verif
 out_dir=/verif/target/mutant-out/$(basename "$(dirname "$patch")")-$(basename "$patch" .diff)
 mkdir -p "$out_dir/evidence" "$out_dir/replays"
